@@ -524,6 +524,9 @@ def stress(acc, rnd, seconds, nthreads=4):
 def run(ctx):
     acc = ctx.acc
     rnd = ctx.rnd
+    # the worker raised the recursion limit for the harness's own needs; an application that uses the library has CPython's default,
+    # and whatever the library does about the limit (process-wide state) must be observed from there
+    sys.setrecursionlimit(1000)
     core.celpy()
     ex = Explorer(acc)
     t_sched = ctx.budget_s * 0.75
@@ -602,7 +605,21 @@ def run(ctx):
             block = [(s1, s2) for s1 in sites for s2 in sites]
             rnd.shuffle(block)
             pairs2 += block
+        # ... and a coarse grid ACROSS functions first: A paused somewhere in the middle of its evaluation, B run up to an early /
+        # middle / late line of its own and paused, A finishes, B finishes.  A "save, change, restore" sequence around a whole
+        # evaluation (entered in a wrapper, far from the code that depends on the changed setting) has its window open for almost
+        # every such pair, while no pair of lines of one function reaches it.
+        ev_order = [site for site, i in sorted(ex.eval_first.items(), key=lambda kv: kv[1]) if ex.site_code.get(site) is not None and site[0] != "<string>"]
+        grid = []
+        if len(ev_order) >= 8:
+            pick = lambda frac: ev_order[min(len(ev_order) - 1, int(len(ev_order) * frac))]
+            grid = [(pick(fa), pick(fb)) for fa in (0.5, 0.2, 0.8) for fb in (0.1, 0.4, 0.7, 0.95)]
         t2 = time.monotonic()
+        for s1, s2 in grid:
+            if time.monotonic() - t2 > budget_double * 0.5 or ctx.expired() or pre_a is None:
+                break
+            ex.double_schedule([(ra, pa), (rb, pa)], s1, s2, f"{ra}{rb} {s1[0]}:{s1[1]} / {s2[0]}:{s2[1]} (grid)", lim, (pre_a, pre_b if pb is pa else None))
+            acc.hook("double-preemption-grid-schedule")
         for s1, s2 in pairs2:
             if time.monotonic() - t2 > budget_double or ctx.expired() or pre_a is None:
                 break
